@@ -15,6 +15,7 @@ class ZoneAnalysis:
         self._summ = {}
         self._inprog = set()
         self.sums = {}
+        self.diffs = {}      # (function, symbol) -> (a, b): the symbol stands for a - b (checked_sub payloads, `a - b` kept opaque)
         self._consts = None
 
     def closure_creator(self, cpath):
